@@ -1,7 +1,7 @@
 (* Properties/C11.v -- Encoding is total and failures are classified correctly (the parts that are theorems). *)
 From Coq Require Import Arith NArith List Bool Lia.
 From DM Require Import Generated.Symbols Generated.ModeTables Model.Outcome Model.SymbolList Model.Planner Model.Enc
-  Model.RSEnc Model.Api Model.PlannerRun Proofs.RSEncLen Proofs.EncLocal Proofs.EncTop Proofs.EncAscii Proofs.PlanTotal Proofs.AsciiTotal Proofs.EncAB Proofs.EncABTotal.
+  Model.RSEnc Model.Api Model.PlannerRun Proofs.RSEncLen Proofs.EncLocal Proofs.EncTop Proofs.EncAscii Proofs.PlanTotal Proofs.AsciiTotal Proofs.EncAB Proofs.EncABTotal Proofs.EncABXTotal.
 Import ListNotations.
 Local Open Scope N_scope.
 
@@ -132,7 +132,19 @@ Theorem C11_ab_total : forall sorter data symbols eci modes use_macros fnc1,
 Proof. exact ab_total. Qed.
 Print Assumptions C11_ab_total.
 
-(* NOT a theorem for the mode sets that contain C40, Text, X12 or EDIFACT: that the main loop's assertions never fire, i.e. that the encoder reaches every switch
+(* (x) the same for every mode set within {ASCII, Base256, X12} (eight of the 64 sets): the planner's X12 runs consist of
+   native characters in whole triples, the last one may leave up to two characters to ASCII (Proofs/PlanAlign.v), so the
+   unreachable!() of the X12 value table, maybe_switch_mode's assertion inside the triple loop and the no-progress guard
+   (at most three consecutive iterations write less than two codewords) cannot fire (Proofs/EncABXTotal.v) *)
+Theorem C11_abx_total : forall sorter data symbols eci modes use_macros fnc1,
+  (forall sl k l, exists l', sorter sl k l = Ok l' /\ incl l' l) ->
+  (forall m, enabled modes m = true -> m = Ascii \/ m = Base256 \/ m = X12) ->
+  match eci with Some c => c <= 999999 | None => True end ->
+  no_panic (encode_data_internal (optimize_fn sorter) data symbols eci modes use_macros fnc1).
+Proof. exact abx_total. Qed.
+Print Assumptions C11_abx_total.
+
+(* NOT a theorem for the mode sets that contain C40, Text or EDIFACT: that the main loop's assertions never fire, i.e. that the encoder reaches every switch
    position the planner chose (planner/encoder agreement).  It is decided per case by running model and
    implementation (debug and release) on the same inputs; the planner's own termination bound is C19, its totality (vi). *)
 Example C11_example : encode_data_internal (fun _ _ _ _ => Ok None) [65] [Square10] None 63 true false = Err TooMuchOrIllegalData.
